@@ -64,7 +64,24 @@ func classesOf(b []byte) []string {
 }
 
 func (c *c16Case) run(idx int, rng *rand.Rand) (string, error) {
-	srv := drv.Start(drv.Cfg{LMTP: c.Lmtp, MaxLine: 2000})
+	// a seventh of the cases: the server's size limit is exactly the size of the
+	// message as it is to arrive (dot-stuffing is transport, it does not count),
+	// and the backend reads in small pieces
+	var limit int64
+	if idx%7 == 3 && len(c.concrete) > 0 && c.Prior == "" {
+		n := 0
+		for i, b := range c.concrete {
+			if b == '\n' && (i == 0 || c.concrete[i-1] != '\r') {
+				n++ // bare LF becomes CRLF
+			}
+			n++
+		}
+		if !bytes.HasSuffix(c.concrete, []byte("\n")) {
+			n += 2 // a final CRLF is ensured
+		}
+		limit = int64(n)
+	}
+	srv := drv.Start(drv.Cfg{LMTP: c.Lmtp, MaxLine: 2000, MaxBytes: limit})
 	defer srv.Stop()
 	cn, err := srv.Dial()
 	if err != nil {
@@ -72,6 +89,10 @@ func (c *c16Case) run(idx int, rng *rand.Rand) (string, error) {
 	}
 	defer cn.Close()
 	plan := rec.DataPlan{}
+	if limit > 0 {
+		plan.Buf = 3
+		plan.Propagate = true
+	}
 	marker := fmt.Sprintf("refused-%d", idx)
 	if c.Reject {
 		plan.Err = &smtp.SMTPError{Code: 554, EnhancedCode: smtp.EnhancedCode{5, 6, 0}, Message: marker}
